@@ -848,6 +848,7 @@ func (runInfo *runInfoStruct) runDeferStmt(stmt *ast.DeferStmt) {
 		args:      args,
 		callSlice: useCallSlice,
 		subExprs:  callExpr.SubExprs,
+		scope:     runInfo.env,
 	})
 	runInfo.rv = nilValue
 }
@@ -895,9 +896,13 @@ func (runInfo *runInfoStruct) callDeferredFunc(deferred capturedFunc) {
 		for i, expr := range deferred.subExprs {
 			if addrExpr, ok := unparen(expr).(*ast.AddrExpr); ok && i < len(deferred.args) {
 				if identExpr, ok := unparen(addrExpr.Expr).(*ast.IdentExpr); ok {
+					// in the scope of the defer statement, where the argument was evaluated
+					current := runInfo.env
+					runInfo.env = deferred.scope
 					runInfo.rv = deferred.args[i].Elem()
 					runInfo.expr = identExpr
 					runInfo.invokeLetExpr()
+					runInfo.env = current
 				}
 			}
 		}
